@@ -348,7 +348,6 @@ def run(ctx):
             c = dict(st, hist=h["hist"])
             total += 1
             ctx.case(key)
-            if os.environ.get("C13_DRY"): continue
             for sig, what in replay(ctx, c, counts):
                 ctx.violation(sig, "%s: %s" % (describe(c), what), dict(base=c["base"], stack=c["stack"], hist=c["hist"]))
         if not sim:
